@@ -379,7 +379,7 @@ func (e *Enc) loopMods(fr *Frame, li *loopInfo) *ModSet {
 		// call/receive ghosts count direct calls only: keep those of the loop body (and of
 		// callees that are expanded in place), drop what callee summaries contributed
 		for f := range ms.Fams {
-			if strings.HasPrefix(f, "G:calls:") || f == "G:recv" {
+			if strings.HasPrefix(f, "G:calls:") || f == "G:recv" || f == "G:chan" {
 				delete(ms.Fams, f)
 			}
 		}
@@ -623,7 +623,7 @@ func (e *Enc) allocMonotone(before, after *St) {
 func (e *Enc) countersMonotone(before, after *St) {
 	for _, name := range e.compOrder {
 		c := e.comps[name]
-		if !(strings.HasPrefix(c.Fam, "G:calls:") || c.Fam == "G:recv") {
+		if !(strings.HasPrefix(c.Fam, "G:calls:") || c.Fam == "G:recv" || c.Fam == "G:chan") {
 			continue
 		}
 		b0, b1 := e.get(before, c), e.get(after, c)
@@ -713,12 +713,12 @@ func (e *Enc) havocMods(fr *Frame, st *St, ms *ModSet, includeLocals bool) {
 			e.note("callees are assumed lock-balanced (the set of held monitor locks is the same before and after a call)")
 			continue
 		}
-		if forCall && (strings.HasPrefix(c.Fam, "G:calls:") || c.Fam == "G:recv") {
+		if forCall && (strings.HasPrefix(c.Fam, "G:calls:") || c.Fam == "G:recv" || c.Fam == "G:chan") {
 			// calls()/lastret()/lastarg() count the direct calls of the function under
 			// verification only; calls made inside a callee do not touch them
 			continue
 		}
-		isCallGhost := strings.HasPrefix(c.Fam, "G:calls:") || c.Fam == "G:recv"
+		isCallGhost := strings.HasPrefix(c.Fam, "G:calls:") || c.Fam == "G:recv" || c.Fam == "G:chan"
 		// Top stands for unknown code of this module: it cannot touch call ghosts, and user
 		// ghost variables change only through contracts that declare them
 		tracked := false
@@ -1834,13 +1834,13 @@ func (e *Enc) chanFieldGhost(fr *Frame, cur *pathState, cond string, ch ssa.Valu
 	}
 	fname := stT.Underlying().(*types.Struct).Field(fa.Field).Name()
 	key := e.structName(stT) + "_" + sanitize(fname)
-	cc := e.comp(cntPfx+key, "(Array Ref Int)", "ghost", "G:recv")
+	cc := e.comp(cntPfx+key, "(Array Ref Int)", "ghost", "G:chan")
 	old := e.get(cur.st, cc)
 	e.set(cur.st, cc, ite(cond, store(old, owner.T, "(+ "+sel(old, owner.T)+" 1)"), old))
 	if v.S == "" || v.Tup != nil || v.S == "Unit" {
 		return
 	}
-	lc := e.comp(lastPfx+key, "(Array Ref "+v.S+")", "ghost", "G:recv")
+	lc := e.comp(lastPfx+key, "(Array Ref "+v.S+")", "ghost", "G:chan")
 	lo := e.get(cur.st, lc)
 	e.set(cur.st, lc, ite(cond, store(lo, owner.T, v.T), lo))
 }
@@ -2033,10 +2033,11 @@ func (e *Enc) directCallFams(fn *ssa.Function, blocks []*ssa.BasicBlock, ms *Mod
 		for _, ins := range b.Instrs {
 			if u, ok := ins.(*ssa.UnOp); ok && u.Op == token.ARROW {
 				ms.add("G:recv")
+				ms.add("G:chan")
 			}
 			switch ins.(type) {
 			case *ssa.Send, *ssa.Select:
-				ms.add("G:recv")
+				ms.add("G:chan")
 			}
 			var c *ssa.CallCommon
 			switch x := ins.(type) {
